@@ -252,7 +252,9 @@ def r45(ctx):
 
 
 def r44(ctx):
-    ctx.ok("R-4.4", None, "restart round trip of accumulators (str(path number) keys on both sides, all keys of traj_data serialised) is decided under C06 R-6.1", nontrivial=False)
+    """Restart round trip of accumulators (the C06 R-6.1 sub-rule, evaluated under C04)."""
+    from .c06 import frac_round_trip
+    frac_round_trip(ctx, "R-4.4")
 
 
 def run(ctx):
@@ -260,7 +262,7 @@ def run(ctx):
     ctx.rule("R-4.2", "accumulate only for idle live paths, after the finished job was inserted", floor=1)
     ctx.rule("R-4.3", "archive exactly once, only on replacement, removing the path from the live table before the commit", floor=5)
     ctx.rule("R-4.5", "the idle guard compares path numbers in one representation (shared with C03 R-3.8)", floor=3)
-    ctx.rule("R-4.4", "restart round trip of accumulators (cross-reference to C06)", floor=1)
+    ctx.rule("R-4.4", "restart round trip of accumulators: every path of traj_data is persisted, keys agree (shared with C06 R-6.1)", floor=2)
     ctx.attempt(r41, ctx)
     ctx.attempt(r42, ctx)
     ctx.attempt(r43, ctx)
@@ -285,6 +287,7 @@ VARIANTS = [
     B("c04-second-archive-site", REPEX, "        self.print_end()\n            self.write_toml()", "        self.print_end()\n            write_to_pathens(self, self.live_paths())\n            self.write_toml()", "R-4.3"),
     B("c04-index-into-filtered-list", REPEX, "        for idx, live in enumerate(self.live_paths()):\n            if live not in locked_trajs:\n                self.traj_data[live][\"frac\"] += self._last_prob[:-1][idx, :]", "        idle_trajs = [live for live in self.live_paths() if live not in locked_trajs]\n        for idx, live in enumerate(idle_trajs):\n            self.traj_data[live][\"frac\"] += self._last_prob[:-1][idx, :]", "R-4.2", why="seeded C04_a"),
     B("c04-locked-paths-from-record", REPEX, "        locks = [\n            t0.path_number\n            for t0, l0 in zip(self._trajs[:-1], self._locks[:-1])\n            if l0\n        ]\n        return locks", "        return [pnum for _, pnums in self.locked for pnum in pnums]", "R-4.5", why="seeded C03_a / C05_a: busy paths would receive weight"),
+    B("c04-frac-of-busy-paths-not-saved", REPEX, "        for key in sorted(self.traj_data.keys()):\n            fracs", "        locked_trajs = self.locked_paths()\n        for key in sorted(self.traj_data.keys()):\n            if key in locked_trajs:\n                continue\n            fracs", "R-4.4", control=True, why="seeded C04_b"),
     K("c04-keep-prefiltered-pairs", REPEX, "        for idx, live in enumerate(self.live_paths()):\n            if live not in locked_trajs:\n                self.traj_data[live][\"frac\"] += self._last_prob[:-1][idx, :]", "        idle = [(idx, live) for idx, live in enumerate(self.live_paths()) if live not in locked_trajs]\n        for idx, live in idle:\n            self.traj_data[live][\"frac\"] += self._last_prob[:-1][idx, :]"),
     K("c04-keep-guard-via-set", REPEX, "            if live not in locked_trajs:\n                self.traj_data[live][\"frac\"] +=", "            if not (live in locked_trajs):\n                self.traj_data[live][\"frac\"] +="),
     K("c04-keep-acc-swapped", REPEX, '        if md_items["status"] == "ACC":\n            write_to_pathens', '        if "ACC" == md_items["status"]:\n            write_to_pathens'),
